@@ -278,7 +278,7 @@ func c17R1Auth(c *Ctx) {
 		c.LostAnchor(RA, dn+": no send is reachable from another send")
 	}
 	for n, r := range rcalls {
-		res := ErrFlow(r, ErrFlowOpts{})
+		res := c13ErrFlow(r, ErrFlowOpts{})
 		c.Check(RA, fmt.Sprintf("%s|rewind#%d-error-returned", dn, n+1), r.Pos(), res.OK, res.How+res.Detail)
 	}
 	for h := range c17NestedSenders { // e.g. resend() used by answerBasic/answerBearer: its rewind error and its own error are returned
@@ -286,19 +286,19 @@ func c17R1Auth(c *Ctx) {
 			continue
 		}
 		for n, r := range c13CallsToFn(h, RW) {
-			res := ErrFlow(r, ErrFlowOpts{})
+			res := c13ErrFlow(r, ErrFlowOpts{})
 			c.Check(RA, fmt.Sprintf("%s|rewind#%d-error-returned", FnName(h), n+1), r.Pos(), res.OK, res.How+res.Detail)
 		}
 		for g := range senders {
 			for _, hc := range c13CallsToFn(g, h) {
-				res := ErrFlow(hc, ErrFlowOpts{})
+				res := c13ErrFlow(hc, ErrFlowOpts{})
 				c.Check(RA, fmt.Sprintf("%s|%s-error-returned", FnName(g), FnName(h)), hc.Pos(), res.OK, res.How+res.Detail)
 			}
 		}
 	}
 	for g := range senders {
 		for n, r := range c13CallsToFn(g, RW) {
-			res := ErrFlow(r, ErrFlowOpts{})
+			res := c13ErrFlow(r, ErrFlowOpts{})
 			c.Check(RA, fmt.Sprintf("%s|rewind#%d-error-returned", FnName(g), n+1), r.Pos(), res.OK, res.How+res.Detail)
 		}
 		for _, ci := range Calls(g, func(string) bool { return true }) { // factories of rewound requests used by the sender
@@ -306,15 +306,15 @@ func c17R1Auth(c *Ctx) {
 			if !c17RewoundFactory(F, RW) {
 				continue
 			}
-			res := ErrFlow(ci, ErrFlowOpts{})
+			res := c13ErrFlow(ci, ErrFlowOpts{})
 			c.Check(RA, fmt.Sprintf("%s|%s-error-returned", FnName(g), FnName(F)), ci.Pos(), res.OK, res.How+res.Detail)
 			for n, r := range c13CallsToFn(F, RW) {
-				res := ErrFlow(r, ErrFlowOpts{})
+				res := c13ErrFlow(r, ErrFlowOpts{})
 				c.Check(RA, fmt.Sprintf("%s|rewind#%d-error-returned", FnName(F), n+1), r.Pos(), res.OK, res.How+res.Detail)
 			}
 		}
 		for _, hc := range c13CallsToFn(Do, g) { // the helper's failure is Do's failure
-			res := ErrFlow(hc, ErrFlowOpts{})
+			res := c13ErrFlow(hc, ErrFlowOpts{})
 			c.Check(RA, fmt.Sprintf("%s|%s-error-returned", dn, FnName(g)), hc.Pos(), res.OK, res.How+res.Detail)
 		}
 	}
@@ -336,7 +336,7 @@ func c17R1Auth(c *Ctx) {
 	okInst := c13SuccessEscapes(RW, RW.Blocks[0], 0, cutGB, nil) == nil
 	detail := ""
 	for _, gb := range c17GetBodyCalls(RW, req) {
-		if res := ErrFlow(gb, ErrFlowOpts{}); !res.OK {
+		if res := c13ErrFlow(gb, ErrFlowOpts{}); !res.OK {
 			okInst, detail = false, res.Detail
 		}
 	}
@@ -558,7 +558,7 @@ func c17RoundTrip(c *Ctx) {
 			ok = false
 		}
 	}
-	r := ErrFlow(P, ErrFlowOpts{})
+	r := c13ErrFlow(P, ErrFlowOpts{})
 	c.Check(R2, rn+"|policy-error-ends", P.Pos(), ok && r.OK, ifelse(ok && r.OK, "a policy error is returned and no further round trip follows", "a policy error does not end the call: "+r.Detail))
 	// on a negative duration the last response and error are handed back unchanged
 	okLast := len(dt.lt0) > 0
@@ -778,7 +778,7 @@ func c17PauseViaHelper(c *Ctx, R3, rn string, RT *ssa.Function, k ssa.CallInstru
 					okCancel = false
 				}
 			}
-			if r := ErrFlow(k, ErrFlowOpts{}); !r.OK {
+			if r := c13ErrFlow(k, ErrFlowOpts{}); !r.OK {
 				okCancel = false
 			}
 		}
@@ -915,7 +915,7 @@ func c17Policy(c *Ctx) {
 			okP = len(te) > 0 && len(nilE) > 0 && passes(newCut().Edges(te...)) && passes(newCut().Edges(nilE...))
 		}
 		c.Check(R2, fn+"|predicate-gates-retry", pred.Pos(), okP, ifelse(okP, "a pause is returned only over the predicate's true edge and nil-error edge", "a retry pause can be returned although the predicate said no or failed: non-retryable answers would be retried"))
-		r := ErrFlow(pred, ErrFlowOpts{})
+		r := c13ErrFlow(pred, ErrFlowOpts{})
 		c.Check(R2, fn+"|predicate-error-returned", pred.Pos(), r.OK, r.How+r.Detail)
 		// predicate sees the response and error given
 		pa := pred.Common().Args
@@ -1102,15 +1102,15 @@ func c17R4(c *Ctx) {
 			// the buffering push's error is returned (from the function, or from the helper and then from the function)
 			isBufPush := func(n string) bool { return n == "(*~/internal/cas.Memory).Push" }
 			for _, p := range Calls(f, isBufPush) {
-				r := ErrFlow(p, ErrFlowOpts{})
+				r := c13ErrFlow(p, ErrFlowOpts{})
 				c.Check(R4, fn+"|buffering-error-returned", p.Pos(), r.OK, r.How+r.Detail)
 			}
 			hcalls, _ := c13RespParamCalls(f, req)
 			for _, hc := range hcalls {
 				h := StaticCallee(hc)
 				for _, p := range Calls(h, isBufPush) {
-					r := ErrFlow(p, ErrFlowOpts{})
-					r2 := ErrFlow(hc, ErrFlowOpts{})
+					r := c13ErrFlow(p, ErrFlowOpts{})
+					r2 := c13ErrFlow(hc, ErrFlowOpts{})
 					c.Check(R4, fn+"|buffering-error-returned", p.Pos(), r.OK && r2.OK, r.How+r.Detail+r2.Detail)
 				}
 			}
